@@ -2,6 +2,7 @@
 import FunsorVerif.Core.Sexp
 import FunsorVerif.Core.XR
 import FunsorVerif.Model.C14
+import FunsorVerif.Gen.C14Variant
 namespace FV.Drv.C14
 open FV FV.C14
 
@@ -29,7 +30,8 @@ def strs (l : List String) : Sexp := Sexp.list (l.map Sexp.atom)
   C14 delta-reduce n p (f…)            Σ_{x<n} δ_p^1(x)·f x  (spec)  and  f p (model)  → spec model
   C14 encode (sizes…) (idx…)           row-major flat index
   C14 decode (sizes…) m                the % / // loop
-  C14 pick (w…) r                      flat_sample for one row of linear weights
+  C14 pick (w…) r                      flat_sample for one row of linear weights (source's current variant)
+  C14 variant                          the generated variant
   C14 sample ((name size)…) (data…) (sampled…) nParticles (r…)
         → (batch names) (event names) (particle…), particle = (row…),
           row = ((b…) (pt…) z massOfSample massOfOriginal)
@@ -74,12 +76,16 @@ def handle (args : List Sexp) : String :=
     | _, _ => "err bad-args"
   | [Sexp.atom "pick", w, r] =>
     match asRats? w, ratOfSexp? r with
-    | some w, some r => "ok " ++ toString (pickCell w r)
+    | some w, some r => "ok " ++ toString (pickCellV FV.Gen.C14.variant w r)
     | _, _ => "err bad-args"
+  | [Sexp.atom "variant"] =>
+    let v := FV.Gen.C14.variant
+    "ok " ++ (match v.cmp with | Cmp.lt => "lt" | Cmp.le => "le") ++ " " ++ toString v.dropLast ++ " "
+      ++ toString v.clamp ++ " " ++ toString v.recognised
   | [Sexp.atom "sample", inputs, data, sampled, np, rs] =>
     match asInputs? inputs, asRats? data, sampled.asStrs?, np.asNat?, asRats? rs with
     | some inputs, some data, some sampled, some np, some rs =>
-      match sampleTensor inputs data sampled np rs with
+      match sampleTensor FV.Gen.C14.variant inputs data sampled np rs with
       | none => "err malformed"
       | some (bn, en, out) =>
         let esizes := (inputs.filter fun (n, _) => sampled.contains n).map (·.2)
